@@ -813,6 +813,11 @@ func (cs *ContractSet) LoadContractFile(path, pkgPath string) error {
 			if cur != nil {
 				cur.Pure = true
 			}
+		case "proved":
+			// contract in a .vc file for code outside /repo whose body is nevertheless verified
+			if cur != nil {
+				cur.Extern = false
+			}
 		case "trusted":
 			if cur != nil {
 				cur.NoVerify = true
@@ -931,6 +936,10 @@ func parseSpecFunc(s string, macro bool) (*SpecFunc, error) {
 	}
 	sf.RType = strings.TrimSpace(rest[:eq])
 	body := strings.TrimSpace(rest[eq+1:])
+	if body == "uninterpreted" {
+		sf.Raw = "uninterpreted"
+		return sf, nil
+	}
 	if strings.HasPrefix(body, "smt:") {
 		sf.Raw = strings.TrimSpace(strings.TrimPrefix(body, "smt:"))
 		return sf, nil
